@@ -149,6 +149,11 @@ pub fn fault_free(scn: &Scn) -> (usize, Vec<Ev>, ops::Res) {
 /// Runs the scenario with the process dying instead of call `k`. Returns violations
 /// and whether the child actually died at k.
 pub fn crash_at(scn: &Scn, k: u64, second: Option<u64>, rep: &mut Report) -> (Vec<(String, String)>, bool) {
+    crash_at_opt(scn, k, second, rep, true)
+}
+
+/// `check_reclaim`: whether the debris of this crash must be gone two hours later (see `followup_violations`).
+pub fn crash_at_opt(scn: &Scn, k: u64, second: Option<u64>, rep: &mut Report, check_reclaim: bool) -> (Vec<(String, String)>, bool) {
     let w = scn::setup(scn);
     let before = w.snapshot();
     let cache = w.cache();
@@ -199,8 +204,55 @@ pub fn crash_at(scn: &Scn, k: u64, second: Option<u64>, rep: &mut Report) -> (Ve
             bad.push((format!("second-crash-{}", s), m));
         }
     }
-    bad.extend(scn::followup_violations(&w, true));
+    bad.extend(scn::followup_violations(&w, check_reclaim));
     (bad, died)
+}
+
+/// Values staged in the cache's own `.kismet_temp` and dated one day ahead of the local clock (copied with their
+/// timestamps, or written by a host whose clock runs ahead), handed to set/put by path and as temp-file objects, the
+/// process dying at every call.  Once the library has stamped the file (its first timestamp update of the staged file
+/// succeeded), the file's age is the library's doing: left behind by the crash, it is debris like any other and must be
+/// gone after a maintenance two hours later.  (Before that stamp the file still carries the application's date, and is
+/// only required to stay confined and harmless.)
+fn future_dated_source_section(shard: Shard, rep: &mut Report, no: &mut u64) {
+    const DAY: i64 = 86_400_000_000_000;
+    for scn in scn::all_scenarios() {
+        if !matches!(scn.op.as_str(), "set" | "put" | "set_temp_file" | "put_temp_file") || scn.debris() || !matches!(scn.front.as_str(), "plain" | "stack") {
+            continue;
+        }
+        ops::STAGED_SOURCE.with(|s| s.set(Some(DAY)));
+        let (n, trace, res) = fault_free(&scn);
+        if res.is_err() || res.is_panic() {
+            rep.violation("crash:staged-source-failed", format!("{} with a staged, future-dated source: {}", scn.to_json(), res.label()), json!({"future_dated_source": true}));
+        }
+        for k in 0..=(n as u64) {
+            *no += 1;
+            if !shard.mine(*no) {
+                continue;
+            }
+            let stamped = trace[..(k as usize).min(trace.len())]
+                .iter()
+                .any(|e| e.kind == shim::Kind::Utimens && e.ok() && e.sets_mtime && e.path.as_deref().map(|p| p.contains("/.kismet_temp/")).unwrap_or(false));
+            rep.evaluations += 1;
+            rep.states += 1;
+            rep.traces += 1;
+            rep.count("future_dated_source_crash_states", 1);
+            if stamped {
+                rep.count("future_dated_source_crash_states_after_the_stamp", 1);
+            }
+            let (bad, _died) = crash_at_opt(&scn, k, None, rep, stamped);
+            let at = trace.get(k as usize).map(|e| e.func).unwrap_or("end");
+            for (sig, msg) in bad {
+                rep.violation(
+                    format!("crash:{}", sig),
+                    format!("{} with the value staged in .kismet_temp and dated a day ahead, dying instead of call {} ({}): {}", scn.to_json(), k, at, msg),
+                    json!({"future_dated_source": true, "scenario": scn.to_json()}),
+                );
+            }
+        }
+        ops::STAGED_SOURCE.with(|s| s.set(None));
+    }
+    ops::STAGED_SOURCE.with(|s| s.set(None));
 }
 
 fn case_json(scn: &Scn, k: u64, second: Option<u64>) -> Value {
@@ -245,7 +297,7 @@ pub fn run(tier: Tier, shard: Shard, rep: &mut Report) {
         maintenance keeps young temp files and removes stale ones, and 2 h later reclaims all debris of the maintained directory; \
         get/touch/put/set/ensure through a fresh handle obey register semantics. Thorough adds a second crash at every call of the \
         recovering process's set+maintenance. Error paths too: each publication step (rename/link) of each write scenario is \
-        refused with EXDEV (thorough: every plausible errno) and the process dies at each later call; same oracle. Non-trivial = death after the first mutating call and before the last call."
+        refused with EXDEV (thorough: every plausible errno) and the process dies at each later call; same oracle. And set/put by path and by temp-file object (plain and stacked) with the value staged in the cache's own .kismet_temp and dated one day ahead of the local clock, dying at every call: same oracle, the two-hour reclaim clause applying from the library's own stamp of the file onwards. Non-trivial = death after the first mutating call and before the last call."
         .into();
     rep.assumptions = vec![
         "process death, not power loss: the kernel state survives intact (kismet does not sync directories)".into(),
@@ -284,11 +336,17 @@ pub fn run(tier: Tier, shard: Shard, rep: &mut Report) {
         }
     }
     fault_then_crash_section(tier, shard, rep, &mut no);
+    future_dated_source_section(shard, rep, &mut no);
     rep.fact("scenarios", json!(scns.len()));
     rep.fact("crash_points_total", json!(no));
 }
 
 pub fn replay(case: &Value, rep: &mut Report) {
+    if case.get("future_dated_source").is_some() {
+        let mut no = 0;
+        future_dated_source_section(Shard { index: 0, count: 1 }, rep, &mut no);
+        return;
+    }
     if case.get("fault_then_crash").is_some() {
         let mut no = 0;
         fault_then_crash_section(Tier::Thorough, Shard { index: 0, count: 1 }, rep, &mut no);
